@@ -54,15 +54,17 @@ UnsolTx(m, x, e, l) ==
                 THEN V(m3, "two-outstanding", l, "new unsolicited response while one awaits confirmation") ELSE m3
         m5 == IF isRetry /\ L.cfg.retries >= 0 /\ L.uns.sends > L.cfg.retries /\ m.nullDone
                 THEN V(m4, "too-many-retries", l, "more unsolicited retries than configured") ELSE m4
-        m6 == IF ~isRetry /\ hasData /\ m.failAt # -1 /\ x.t < m.failAt + L.cfg.retry_delay
+        \* a data series that is replaced without having been confirmed has failed (at its last
+        \* confirm timeout)
+        failed == ~isRetry /\ L.uns.has /\ L.uns.active /\ L.uns.ids # <<>>
+        failT  == IF failed THEN L.uns.t + L.cfg.confirm_to ELSE m.failAt
+        m6 == IF ~isRetry /\ hasData /\ failT # -1 /\ x.t < failT + L.cfg.retry_delay
                 THEN V(m5, "retry-too-soon", l, "new unsolicited series before the retry delay elapsed") ELSE m5
         cc == CarriedClasses(L, x)
         m7 == IF ~isRetry /\ ~(cc \subseteq m.enabled)
                 THEN V(m6, "not-enabled", l, "unsolicited event data for a class that is not enabled") ELSE m6
         m8 == IF \E c \in cc : c \notin m.enabled /\ m.disabledAt[c] # -1 /\ isRetry
                 THEN V(m7, "after-disable", l, "unsolicited data re-sent after DISABLE_UNSOLICITED") ELSE m7
-        \* a data series that is replaced without having been confirmed has failed
-        failed == ~isRetry /\ L.uns.has /\ L.uns.active /\ L.uns.ids # <<>>
     IN [m8 EXCEPT !.lastSeq = x.seq,
                   !.failAt = IF failed THEN L.uns.t + L.cfg.confirm_to ELSE @]
 
